@@ -137,9 +137,9 @@ def make_world(rng, graph_enc, flavour, conc, nfiles, d, big=False):
     return w, store, files
 
 
-def snapshot_run(run, rng, seed, flavour, conc, fail, quick, big=False, fuzz=False):
+def snapshot_run(run, rng, seed, flavour, conc, fail, quick, big=False, fuzz=False, sites=None, nfiles=None):
     with harness.scratch() as d:
-        w, store, files = make_world(rng, bool(seed % 2), flavour, conc, rng.randrange(1, 5), d, big=big)
+        w, store, files = make_world(rng, bool(seed % 2), flavour, conc, nfiles or rng.randrange(1, 5), d, big=big)
         # sequential reference: concurrency 1, no perturbation
         ref_world = harness.World(store=membackend.Store(dict(store.objs)), concurrent=1, flavour=flavour)
         ref_world.users = w.users
@@ -155,8 +155,8 @@ def snapshot_run(run, rng, seed, flavour, conc, fail, quick, big=False, fuzz=Fal
         be = instrument(w.backend(gate=LoggingGate(ctl, random.Random(seed), fail_at=fail)), ctl)
         install(ctl)
         try:
-            with (linefuzz.fuzz(seed, linefuzz.SNAPSHOT) if fuzz else contextlib.nullcontext()):
-                o, hung = run_watchdog(lambda: w.command('a', observed(lambda r: r.snapshot(paths=[d / 'src']), slots, conc), backend=be, concurrent=conc), 12)
+            with (linefuzz.delay_sites(sites, 0.02) if sites else linefuzz.fuzz(seed, linefuzz.SNAPSHOT) if fuzz else contextlib.nullcontext()):
+                o, hung = run_watchdog(lambda: w.command('a', observed(lambda r: r.snapshot(paths=[d / 'src']), slots, conc), backend=be, concurrent=conc), 30 if sites else 12)
         finally:
             uninstall()
         ok = bool(o and o.ok)
@@ -175,7 +175,7 @@ def snapshot_run(run, rng, seed, flavour, conc, fail, quick, big=False, fuzz=Fal
         evs = events_for_trace(ctl, 'snapshot')
         evs.append({'a': 'end', 'ok': ok, 'fault': fail is not None, 'same': bool(same), 'free': free if not hung else -1, 'hung': bool(hung),
                     'etype': o.etype if o else 'hung'})
-        run.case(('snapshot', seed, flavour, conc, fail, big, fuzz), nontrivial=len(evs) > 8)
+        run.case(('snapshot', seed, flavour, conc, fail, big, fuzz, tuple(sites or ())), nontrivial=len(evs) > 8)
         return {'kind': 'snapshot', 'n': conc, 'nfiles': 1, 'expected': [0], 'events': evs, 'seed': seed, 'flavour': flavour, 'fail': fail}
 
 
@@ -197,7 +197,7 @@ def check_restored(tgt, files, d):
     return got == want
 
 
-def restore_run(run, rng, seed, flavour, conc, fail, quick, fuzz=False):
+def restore_run(run, rng, seed, flavour, conc, fail, quick, fuzz=False, sites=None):
     with harness.scratch() as d:
         w, store, files, file_ids, expected, snap = restore_prepare(rng, bool(seed % 2), flavour, conc, rng.randrange(1, 5), d)
         ctl = sched.Controller(perturb_seed=seed)
@@ -207,7 +207,7 @@ def restore_run(run, rng, seed, flavour, conc, fail, quick, fuzz=False):
         tgt.mkdir()
         install(ctl)
         try:
-            with (linefuzz.fuzz(seed, linefuzz.RESTORE) if fuzz else contextlib.nullcontext()):
+            with (linefuzz.delay_sites(sites, 0.02) if sites else linefuzz.fuzz(seed, linefuzz.RESTORE) if fuzz else contextlib.nullcontext()):
                 o, hung = run_watchdog(lambda: w.command('a', observed(lambda r: r.restore(path=tgt), slots, conc), backend=be, concurrent=conc))
         finally:
             uninstall()
@@ -216,7 +216,7 @@ def restore_run(run, rng, seed, flavour, conc, fail, quick, fuzz=False):
         free = slots.get('free', o.repo._slots.qsize() if (o is not None and getattr(o, 'repo', None) is not None) else -1) if not hung else -1
         evs.append({'a': 'end', 'ok': ok, 'fault': fail is not None, 'same': bool(ok and check_restored(tgt, files, d)), 'free': free, 'hung': bool(hung),
                     'etype': o.etype if o else 'hung'})
-        run.case(('restore', seed, flavour, conc, fail, fuzz), nontrivial=len(evs) > 8)
+        run.case(('restore', seed, flavour, conc, fail, fuzz, tuple(sites or ())), nontrivial=len(evs) > 8)
         return {'kind': 'restore', 'n': conc, 'nfiles': len(expected), 'expected': expected, 'events': evs, 'seed': seed, 'flavour': flavour, 'fail': fail}
 
 
@@ -373,6 +373,36 @@ def main(run):
         traces.append(restore_run(run, rng, run.seed * 1000 + 600 + i, 'plain' if i % 2 else 'async', [2, 3][i % 2], None, quick, fuzz=True))
     for i in range(8 if quick else 100):
         traces.append(snapshot_run(run, rng, run.seed * 1000 + 700 + i, 'plain' if i % 2 else 'async', [2, 3][i % 2], None, quick, big=bool(i % 4 == 0), fuzz=True))
+    # delay injection at call sites: every place where a pipeline function has just called something (looked at the queue, a future, a
+    # lock table ...) is held open for 20 ms whenever it is passed, a few sites per run; the quick tier samples the sites, the thorough tier
+    # goes through all of them
+    from replicat.repository import Repository as _R
+    ssites = linefuzz.call_sites([_R.snapshot.__code__], ('_worker', '_chunk_producer', '_chunk_done'))
+    rsites = linefuzz.call_sites([_R.restore.__code__], ('_write_chunk_ref', '_download_chunk'))
+    rng.shuffle(ssites)
+    rng.shuffle(rsites)
+    per = 6
+    groups_s = [ssites[i:i + per] for i in range(0, len(ssites), per)]
+    groups_r = [rsites[i:i + per] for i in range(0, len(rsites), per)]
+    for i, g in enumerate(groups_s if not quick else groups_s[:14]):
+        for conc in (1, 2):          # some windows only matter with a single worker (nobody else drains the queue), others need two
+            traces.append(snapshot_run(run, rng, run.seed * 1000 + 1100 + 2 * i + conc, 'plain' if i % 2 else 'async', conc, None, quick, sites=g))
+    for i, g in enumerate(groups_r if not quick else groups_r[:8]):
+        traces.append(restore_run(run, rng, run.seed * 1000 + 1300 + i, 'plain' if i % 2 else 'async', [2, 3][i % 2], None, quick, sites=g))
+    # a SLOW producer (3 ms at every call site of its loop): the workers wait on an empty queue while the producer is still running,
+    # and every window in the worker loop is held open (60 ms) in turn - the end-of-stream handshake between the two
+    slow = [(n, o, 0.001) for n, o in ssites if n == '_chunk_producer']      # slow everywhere, a little
+    # the handshake itself (the worker's looks at the queue and at the producer's state), several times: the last put has to fall into the window
+    by_callee = {}
+    for n, o, c in linefuzz.call_sites([_R.snapshot.__code__], ('_worker',), with_callee=True):
+        if c in ('empty', 'done', 'get_nowait', 'qsize', 'full', 'is_set'):
+            by_callee.setdefault(c, []).append((n, o, 0.15))
+    k = 0
+    for c, ss in sorted(by_callee.items()):         # one kind of look at a time (e.g. every `queue.empty()` of the worker loop)
+        for rep in range(5 if quick else 40):
+            k += 1
+            traces.append(snapshot_run(run, rng, run.seed * 1000 + 1700 + k, 'plain', 1 if rep % 4 != 3 else 2, None, quick, sites=slow + ss, nfiles=1 + rep % 2))
+    run.add(call_sites_snapshot=len(ssites), call_sites_restore=len(rsites), call_sites_delayed=per * ((len(groups_s) if not quick else min(14, len(groups_s))) + (len(groups_r) if not quick else min(8, len(groups_r)))))
     # ... and without a failure: the producer is blocked on the full queue in the middle of a file while chunks of that file complete
     for i in range(3 if quick else 30):
         traces.append(snapshot_run(run, rng, run.seed * 1000 + 900 + i, 'plain' if i % 2 else 'async', [1, 2, 3][i % 3], None, quick, big=True))
